@@ -955,6 +955,13 @@ class Analysis:
         vec_len = None
         if FROM_ELEM.search(name) and len(args) == 2:
             vec_len = self.operand(st, args[1], bb, "t")
+        elif re.search(r"\bVec::<T>::(with_capacity|new)$|\bVec::<T, A>::(with_capacity_in|new_in)$", name):
+            vec_len = Lin(0)     # capacity is not length
+        if re.search(r"\bRead>?::read_exact$|AsyncReadExt>?::read_exact$", orig or name) and len(args) >= 2:
+            ln_ = self.len_of(st, self.value_atom(st, args[1]))
+            if ln_ is not None and ln_.is_const() and ln_.c == 0:
+                self.zero_reads = getattr(self, "zero_reads", {})
+                self.zero_reads[bb] = loc
         if d is not None:
             self.kill(st, d)
             if vec_len is not None:
